@@ -205,9 +205,9 @@ def ob_tx_write(ex, nchunks=2):
     q0 = ex.queries
     st = State()
     sw = SystemWorld(ex, st, U=1, HU=1, N=2)
-    tx = E.mk_tx(ex, sw, st, pending=False)
-    tx.fields[3] = VOpaque("hasher", ())
-    tx.fields[4] = VInt(0, "u64")
+    tx, st = E.mk_tx(ex, sw, st, pending=False)     # a fresh transaction exactly as Transaction::new builds it
+    I_HASHER, I_SIZE, I_WRITER = E.tx_field(ex, "hasher"), E.tx_field(ex, "size"), E.tx_field(ex, "writer")
+    tx.fields[I_SIZE] = VInt(0, "u64")
     txref = VRef(st.alloc(tx))
     fn = find_fn(ex, "::write", "transaction::")
     lens = []
@@ -252,12 +252,12 @@ def ob_tx_write(ex, nchunks=2):
                               {"chunk_lens": [m.eval(x, model_completion=True).as_long() for x in f.meta.get("chunk_lens", [])]} if m else None,
                               ex.queries - q0, len(states))
         t = f.load(txref)
-        hashed = norm(list(t.fields[3].data))
+        hashed = norm(list(t.fields[I_HASHER].data))
         ios = [e for e in f.trace if e["kind"] == "io" and e["op"] == "write" and e["path"][0] == "staging"]
         written = []
         for e in ios:
             written += norm(e["data"])
-        written += norm([x.data for x in t.fields[2].fields[1].elems])
+        written += norm([x.data for x in t.fields[I_WRITER].fields[1].elems])
         lens = f.meta.get("chunk_lens", [])
 
         def total(seq):
@@ -294,7 +294,7 @@ def ob_tx_write(ex, nchunks=2):
                             okc.append(d[3] == 0)
                         last_chunk = max(last_chunk, idx)
                 posts[f"C18 {seqname} stream is the chunks in order without gaps"] = z3.And(okc) if okc else z3.BoolVal(True)
-        posts["C18 recorded size == total length"] = t.fields[4].t == want
+        posts["C18 recorded size == total length"] = t.fields[I_SIZE].t == want
         for lab, post in posts.items():
             n += 1
             if isinstance(post, bool):
@@ -324,7 +324,7 @@ def make_posts_commit_identity(ex):
         ren = [e for e in f.trace if e["kind"] == "io" and e["op"] == "rename" and e.get("dst", ("",))[0] == "cas" and e["outcome"] == "ok"]
         for e in ren:
             out["C18 blob renamed to the path of the content's hash"] = e["dst"][1] == h
-        out["C18 finalize() covers exactly the content"] = (f.meta.get("finalized-over") == (("content",),)) or not ren
+        out["C18 finalize() covers exactly the content"] = (f.meta.get("finalized-over") == (("content", ()),)) or not ren
         if isinstance(rv, VEnum) and rv.concrete() == 0:
             w = sw.iw
             post = w.snapshot_of(f, sw.state_ref)
